@@ -83,7 +83,7 @@ def k_collect(N=3):
         got_cancel = {j.name for j in canceled}
         ex.check(got_cancel == want_cancel, "C04: submitter cancels other jobs than the flagged dependents of failed or canceled jobs",
                  got=sorted(got_cancel), want=sorted(want_cancel))
-        ex.check(len(canceled) == len(got_cancel), "C04: a job was canceled twice in one round")
+        ex.check(len(canceled) == len(got_cancel), "C03/C04: a job was canceled twice in one round (two result entries for one job)")
         ex.check(set(newly) == set(rc) | want_cancel, "C02/C09: newly completed names are not exactly the collected plus the canceled jobs",
                  got=sorted(newly), want=sorted(set(rc) | want_cancel))
         after = {j.name: j for j in cluster.job_status.jobs}
@@ -97,7 +97,7 @@ def k_collect(N=3):
                          "C02: remaining blockers are not the old ones minus the jobs whose outcome was recorded in this round", job=n,
                          got=sorted(after[n].blocked_by), want=sorted(blk[i] - (set(rc) | want_cancel)))
         recs = {r.name: r for r in W["appended"]}
-        ex.check(set(recs) == want_cancel and len(W["appended"]) == len(recs), "C04: canceled results written are not exactly the canceled jobs",
+        ex.check(set(recs) == want_cancel and len(W["appended"]) == len(recs), "C03/C04: canceled results written are not exactly the canceled jobs",
                  got=sorted(recs))
         for r in W["appended"]:
             ex.check(r.status == "canceled" and r.return_code != 0, "C04: canceled record malformed", job=r.name)
